@@ -1,5 +1,5 @@
 From Coq Require Import List Arith Bool Lia PeanoNat ZArith Permutation.
-Require Import PermSolver.
+From Godi Require Import PermSolver.
 Import ListNotations.
 Open Scope Z_scope.
 
